@@ -8,12 +8,12 @@ def P(quick, thorough, **kw):
     return d
 
 PLANS = {
- "C01": P([("roundtrip", 60), ("boundary_reader", 38), ("boundary", 12), ("sparse_boundary", 3), ("reopen", 10), ("bigline", 2), ("interleave", 20), ("reopen_marker", 20)],
-          [("roundtrip", 1500), ("boundary_reader", 380), ("boundary", 190), ("sparse_boundary", 24), ("reopen", 200), ("assets", 2), ("bigline", 10)]),
+ "C01": P([("roundtrip", 60), ("boundary_reader", 38), ("boundary", 12), ("sparse_boundary", 3), ("reopen", 10), ("bigline", 2), ("interleave", 20), ("reopen_marker", 20), ("caches_reopen", 10)],
+          [("roundtrip", 1500), ("boundary_reader", 380), ("boundary", 190), ("sparse_boundary", 24), ("reopen", 200), ("assets", 2), ("bigline", 10), ("caches_reopen", 100)]),
  "C02": P([("ranges", 70), ("boundary", 2), ("bigsection", 4), ("lastmeta", 12)], [("ranges", 2500), ("boundary", 40), ("index_states", 200), ("bigsection", 60)]),
  "C03": P([("refuse", 60), ("torn", 40), ("boundary", 6), ("lastmeta", 12)], [("refuse", 1500), ("torn", 600), ("boundary", 60)]),
- "C04": P([("reopen", 50), ("reopen_marker", 20), ("roundtrip", 20), ("bigline", 6), ("lastmeta", 6)],
-          [("reopen", 1200), ("reopen_marker", 500), ("roundtrip", 400), ("bigline", 20), ("lastmeta", 60)], op_timeout_ms=20000),
+ "C04": P([("reopen", 50), ("reopen_marker", 20), ("roundtrip", 20), ("bigline", 6), ("lastmeta", 6), ("caches_reopen", 12)],
+          [("reopen", 1200), ("reopen_marker", 500), ("roundtrip", 400), ("bigline", 20), ("lastmeta", 60), ("caches_reopen", 120)], op_timeout_ms=20000),
  "C05": P([("torn", 90), ("index_states", 10), ("boundary", 19), ("boundary2", 6), ("lastmeta", 16)], [("torn", 3000), ("index_states", 300), ("boundary", 190), ("boundary2", 90), ("lastmeta", 160)]),
  "C06": P([("index_states", 50), ("roundtrip", 15), ("boundary", 38), ("boundary2", 10), ("sparse_boundary", 3), ("torn", 20), ("lastmeta", 16)],
           [("index_states", 1500), ("roundtrip", 300), ("boundary", 120), ("boundary2", 90), ("sparse_boundary", 30), ("lastmeta", 160)]),
@@ -136,6 +136,10 @@ def properties_of_failure(rec, jf):
             ps.add("C16")     # only the repair of a damaged tail may change a file at open: this series was intact
         if k in ("push", "pushseq") and not is_cache and not is_index:
             ps.add("C03")
+        if k == "new" and "expected=absent" not in what:
+            # a create (refused: the file was there before) changed or removed a file that earlier appends had written
+            ps.add("C16")
+            if not is_cache and not is_index and c["pushed"]: ps.add("C01")
     return ps
 
 def relevant(pid, rec, jf):
